@@ -174,9 +174,25 @@ def run_cfg(ctx, p, cfg):
                 if d[0] == "un" and d[1] == "Not" and deep_strip(d[2]) == tty_only:
                     return [not only]
                 return None
-            outs = q.decision_walk(b, choose, watch_locals=(dw_local,), start=ist.block)
+            bflag_name = bflag[0]
+
+            def place_value(pl, only=only):
+                pr = pl["p"]
+                if pl["l"] == 1 and pr and isinstance(pr[-1], dict) and pr[-1].get("f") == bflag_name and all(x == "*" for x in pr[:-1]):
+                    return only
+                return None
+
+            def call_value(t, tty=tty):
+                return tty if (t.get("resolved") == ist.callee or t.get("decl") == ist.callee) else None
+            # case split over the two inputs with boolean constants propagated along each walk
+            outs = q.decision_walk(b, choose, watch_locals=(dw_local,), start=0, track={"place_value": place_value, "call_value": call_value})
             res = set()
             for o in outs:
+                if o.get("stuck") or b.term(o["end"])["k"] != "return":
+                    continue
+                if dw_local in o.get("env", {}):
+                    res.add(o["env"][dw_local])
+                    continue
                 v = o["last"].get(dw_local)
                 if v is None:
                     res.add("?")
@@ -433,13 +449,70 @@ def run_cfg(ctx, p, cfg):
         enc = [c for c in f.calls("encode::pattern::Chunk::encode") if c.block in region]
         r.require(len(enc) == 1, "children-encoded-once", fn=f, detail="Chunk::encode sites on the Highlight arm: %d" % len(enc))
         before, after = {}, {}
-        for c in hs:
-            levels = set()
-            for sb, si, al in f.conditions(c.block):
+
+        def level_labels(block):
+            for sb, si, al in f.conditions(block):
                 d = strip(si.discr)
                 if d[0] == "discr" and any(x[0] == "call" and x[1] == "log::Record::<'a>::level" for x in walk(d)):
-                    levels = {si.label(v) for v, _ in al}
-            is_reset = _is_plain_style(c.arg(1))
+                    return {si.label(v) for v, _ in al}
+            return None
+
+        def levels_via_option(si, al):
+            """`if style.is_some()` / `if let Some(..) = style` where `style` was chosen per level earlier: the levels
+            on whose edges the tested Option was built as the variant this edge requires"""
+            d = strip(si.discr)
+            labs = {si.label(v) for v, _ in al}
+            loc = None
+            want = None
+            if d[0] == "call" and d[1] in ("core::option::Option::<T>::is_some", "core::option::Option::<T>::is_none") and labs in ({True}, {False}):
+                want = "Some" if (d[1].endswith("is_some")) == (True in labs) else "None"
+                t = f.term(d[3])
+                pl = t["args"][0].get("copy") or t["args"][0].get("move")
+                if pl and not pl["p"]:
+                    for (dp, b, i, kind, payload) in f.defs(pl["l"]):
+                        if kind == "rv" and payload["k"] == "ref" and not payload["place"]["p"]:
+                            loc = payload["place"]["l"]
+            elif d[0] == "discr" and labs <= {"Some", "None"} and len(labs) == 1:
+                want = list(labs)[0]
+                for st in f.stmts(si.b):
+                    if st["k"] == "assign" and st["rv"]["k"] == "discr" and not st["rv"]["place"]["p"]:
+                        loc = st["rv"]["place"]["l"]
+            if loc is None:
+                return None
+            def variant_defs(l, depth=4):
+                res = []
+                for (dp, b, i, kind, payload) in f.defs(l):
+                    if dp:
+                        return None
+                    if kind == "rv" and payload["k"] == "agg" and payload.get("variant") in ("Some", "None"):
+                        res.append((b, payload["variant"]))
+                    elif kind == "rv" and payload["k"] == "use" and depth > 0 and (payload["a"].get("copy") or payload["a"].get("move")) \
+                            and not (payload["a"].get("copy") or payload["a"].get("move"))["p"]:
+                        sub = variant_defs((payload["a"].get("copy") or payload["a"].get("move"))["l"], depth - 1)
+                        if sub is None:
+                            return None
+                        res.extend((b2, v) for b2, v in sub if b2 == b or f.can_reach(b2, b))
+                    else:
+                        return None
+                return res
+            vd = variant_defs(loc)
+            if not vd:
+                return None
+            out = set()
+            for blk, var in vd:
+                if var == want:
+                    lv = level_labels(blk)
+                    if lv is None:
+                        return None
+                    out |= lv
+            return out
+        for c in hs:
+            levels = level_labels(c.block) or set()
+            for sb, si, al in f.conditions(c.block):
+                lv = levels_via_option(si, al)
+                if lv is not None:
+                    levels = (levels & lv) if levels else lv
+            is_reset = _is_plain_style(c.arg(1), f)
             pre = enc and f.can_reach(c.block, enc[0].block)
             (before if pre else after)[c.block] = (frozenset(str(x) for x in levels), is_reset)
         set_levels = set().union(*[lv for lv, rs in before.values() if not rs]) if before else set()
@@ -520,6 +593,18 @@ def _norm_bool(e, tty_only, ist_callee, tty):
     return d
 
 
-def _is_plain_style(e):
+def _is_plain_style(e, f=None):
     names = [x[1].rsplit("::", 1)[-1] for x in walk(e) if x[0] == "call" and x[1].startswith("encode::Style::")]
-    return names == ["new"] or (bool(names) and set(names) == {"new"})
+    plain = names == ["new"] or (bool(names) and set(names) == {"new"})
+    if plain and f is not None:
+        # a Style::new() kept in a local and then configured through `&mut` setters is not plain
+        for x in walk(e):
+            if x[0] == "call" and x[1] == "encode::Style::new" and len(x) > 3 and x[3] is not None:
+                t = f.term(x[3])
+                if t["k"] == "call" and not t["dest"]["p"]:
+                    l = t["dest"]["l"]
+                    for b, i, st in f.assigns():
+                        rv = st["rv"]
+                        if rv["k"] == "ref" and rv.get("mut") and rv["place"]["l"] == l:
+                            return False
+    return plain
